@@ -2,7 +2,7 @@
 
 from __future__ import annotations
 
-from ..execmodel import FullHooks, descriptors, make_session, node, run_execute
+from ..execmodel import FullHooks, define_variables, descriptors, make_session, node, run_execute
 from ..interp import explore
 from ..values import ClsRef, Const, Ext, Lst, NodeV, Obj, Sym, Tup, tagof
 
@@ -60,7 +60,7 @@ def rule_execute_string(ctx):
                 duck, conn, cur = make_session()
                 from ..execmodel import R
                 from ..values import Dct
-                conn.attrs["variables"].attrs[R().variables] = Dct({"V": Const("1")})  # a session variable is defined
+                define_variables(conn, {"V": Const("1")})  # a session variable is defined
                 sessions.append(conn)
                 cc = Ext("snowflake.connector.cursor.DictCursor" if dict_cursor else "snowflake.connector.cursor.SnowflakeCursor")
                 kw = {"cursor_class": cc}
